@@ -115,6 +115,31 @@ def op_distinct(g, p, c):
     return gen()
 
 
+def op_distinct_by(g, p, c):
+    f = c.fn(p['lid'], SEL[p['S']][1])
+
+    def gen():
+        seen = set()
+        for x in g:
+            key = f(x)
+            if key not in seen:
+                seen.add(key)
+                yield x
+    return gen()
+
+
+def op_accumulate_seed(g, p, c):
+    f = c.fn(p['lid'], F2[p['F']][1])
+
+    def gen():
+        total = 100
+        yield total
+        for x in g:
+            total = f(total, x)
+            yield total
+    return gen()
+
+
 def op_accumulate(g, p, c):
     f = c.fn(p['lid'], F2[p['F']][1])
 
@@ -204,6 +229,8 @@ OPS = {
     'concat-front': ('[-1, -2].concat({c})',
                      lambda g, p, c: itertools.chain([-1, -2], g), None),
     'distinct': ('{c}.distinct()', op_distinct, None),
+    'distinct-by': ('{c}.distinct({L})', op_distinct_by, 'S'),
+    'accumulate-seed': ('{c}.accumulate({L}, 100)', op_accumulate_seed, 'F'),
     'enumerate': ('{c}.enumerate().select($[1])',
                   lambda g, p, c: (x for i, x in enumerate(g)), None),
     'zip': ('{c}.zip([7, 8, 9, 10]).select($[0])',
